@@ -221,7 +221,18 @@ def run_life(c, P):
         F = P['fault']
         w.fault_hook = env.SymFaults(F['ops'], F.get('kinds', ['oserror']), F.get('max', 1), F.get('skip'), sticky=F.get('sticky', ()))
     w.max_waits = P.get('max_waits', 60)
-    ws = L.WebSocket(P.get('url', 'ws://example.com/'))
+    wkw = {}
+    if P.get('sym_agent'):
+        # rarely used constructor options with text from every Unicode plane (one symbolic code point each)
+        def cp(name):
+            x = c.int(name, 21)
+            if c.concrete is None:
+                c.assume(z3.And(z3.ULE(x.e, 0x10FFFF), z3.UGE(x.e, 0x21), z3.Or(z3.ULT(x.e, 0xD800), z3.UGT(x.e, 0xDFFF)),
+                                x.e != 0x7F, z3.Or(z3.ULT(x.e, 0x80), z3.UGT(x.e, 0xA0))))
+                return mk_str([0x41, x, 0x5A])
+            return 'A' + chr(x) + 'Z'
+        wkw = dict(agent=cp('agent_cp'), protocols=[cp('proto_cp')])
+    ws = L.WebSocket(P.get('url', 'ws://example.com/'), **wkw)
     app = App(c, w, P)
     ck = dict(poll=1e9, ping_rate=0, ping_timeout=None, close_timeout=None, auto_pong=True)
     ck.update(P.get('connect', {}))
